@@ -233,6 +233,13 @@ theorem mapM_lookDef (defs : List MTask) (f : Path → Except Err MTask)
         · exact lookDef_mem hx'
         · exact h2 u hu
 
+theorem lookTask_ok (defs : List MTask) (id : Path) (t : MTask) (h : lookTask defs id = .ok t) :
+    lookDef defs id = some t := by
+  unfold lookTask at h
+  cases hx : lookDef defs id with
+  | none => simp [hx] at h
+  | some t' => simp only [hx, Except.ok.injEq] at h; rw [h]
+
 theorem eq_of_id_eq : ∀ (defs : List MTask), (defs.map (·.id)).Nodup → ∀ t ∈ defs, ∀ u ∈ defs, t.id = u.id → t = u := by
   intro defs hnd t ht u hu he
   have h1 := lookDef_of_mem defs hnd t ht
@@ -258,16 +265,12 @@ theorem writeAndRun_consistent (sched : Sched) (s : MState) (p : Path) (v : Val)
       simp only [hw] at hok
       obtain ⟨hset, hnf1, hd1, hi1, hf1⟩ := writeRef_nofault s p v sc.nofault s1 hw
       rw [hi1, hd1] at hok
-      generalize hm : List.mapM (m := Except Err) (β := MTask) _ (sched (findTaskids s.idx (chainR p))) = res at hok
+      generalize hm : List.mapM (lookTask s.defs) (sched (findTaskids s.idx (chainR p))) = res at hok
       cases res with
       | error e => simp at hok
       | ok l =>
         simp only at hok
-        obtain ⟨hlmap, hlsub⟩ := mapM_lookDef s.defs _ (by
-          intro id t h
-          cases hx : lookDef s.defs id with
-          | none => simp [hx] at h
-          | some t' => simp only [hx, Except.ok.injEq] at h; rw [h]) _ l hm
+        obtain ⟨hlmap, hlsub⟩ := mapM_lookDef s.defs _ (lookTask_ok s.defs) _ l hm
         have hexl : ∀ t ∈ l, ∃ e, t.kind = .expr e := fun t ht => by
           obtain ⟨e, he, _⟩ := sc.exprs t (hlsub t ht); exact ⟨e, he⟩
         obtain ⟨hrun, hnf'⟩ := runTasks_expr l s1 s' hnf1 hexl hok
